@@ -10,6 +10,7 @@
 -/
 import WR.C02.Lemmas
 import WR.C02.Progress
+import WR.C02.Termination
 import WR.C02.Geo
 namespace WR.Props.C02
 open WR.C02
@@ -126,18 +127,35 @@ theorem loop_stops_only_on_fuel (P : PageInfo → Oracle γ × γ) (ltr : Bool) 
           · exact Or.inl h
           · exact Or.inr (by simp [h])
 
-/- FULL STATEMENT (not proved):
+/-- **Progress.**  On an empty page (`pageIsEmpty`) a well-formed box (every paragraph has a line, every
+    block a child, orphans ≥ 1) resumed at a proper position is not cancelled, places at least one line,
+    and the returned resume position is proper again — for every oracle, i.e. however small the page. -/
+theorem page_places_a_line (O : Oracle γ) (b : Box) (s : RS) (g : γ) (hwf : b.wf = true) (hs : proper b s = true) :
+    ∃ br, layBox O b s g true = .ok br ∧ br.frag.leaves ≠ [] ∧ (∀ r, br.resume = some r → proper b r = true) :=
+  layBox_progress O b s g hwf hs
 
-   theorem paginate_progress (P) (ltr) (root : Box) (hwf : every paragraph has a line, every block a child,
-       orphans ≥ 1) : (paginate P ltr root (2 * root.leaves.length + 1)).done = true
+example : (Box.block {} (.cons (.para {} [1, 2]) .nil)).wf = true ∧
+    proper (Box.block {} (.cons (.para {} [1, 2]) .nil)) (.at 0 (.at 0 (.at 1 .start))) = true := by decide
 
-   Proved above: the root is never cancelled (`root_never_aborts`), a blank page is never followed by a
-   blank page (`no_two_blank_pages`), the loop stops early only when the fuel runs out
-   (`loop_stops_only_on_fuel`), and every page's fragment is a cut of the document
-   (`layBox_ok`, so the resume position never moves backwards: `pages_prefix`).
-   Missing: "with `pageIsEmpty` a well-formed box resumed at a proper position places at least one line
-   and returns a proper position" (needs the same for the earlier-break candidates).  The correspondence
-   run evaluates the bound on every generated document (fuel 2·(#lines+#blocks)+2 always suffices there). -/
+/-- **Termination of the page loop** (C01 `paginate_progress`).  Every non-blank page places at least one
+    line and a blank page is never followed by a blank page, so `2·#lines + 1` pages always suffice: the
+    loop ends with `done = true` for every well-formed class-F document and every oracle (every page
+    geometry, including pages too small for a single line, every @page rule set). -/
+theorem paginate_progress (P : PageInfo → Oracle γ × γ) (ltr : Bool) (root : Box) (hwf : root.wf = true) :
+    (paginate P ltr root (2 * root.leaves.length + 1)).done = true :=
+  paginate_done P ltr root hwf
+
+/-- … hence pagination conserves the text of every well-formed class-F document, unconditionally. -/
+theorem paginate_total_conserves (P : PageInfo → Oracle γ × γ) (ltr : Bool) (root : Box) (hwf : root.wf = true) :
+    pagesLeaves (paginate P ltr root (2 * root.leaves.length + 1)).pages = root.leaves :=
+  paginate_conserves P ltr root _ (paginate_progress P ltr root hwf)
+
+/-- the concrete geometry of blocks.go (the instance the driver executes), any page geometry -/
+theorem geo_paginate_total (lineH : Int) (dims : PageInfo → Int × Int) (ltr : Bool) (root : Box)
+    (hwf : root.wf = true) :
+    (paginate (geoPages lineH dims) ltr root (2 * root.leaves.length + 1)).done = true ∧
+    pagesLeaves (paginate (geoPages lineH dims) ltr root (2 * root.leaves.length + 1)).pages = root.leaves :=
+  ⟨paginate_progress _ ltr root hwf, paginate_total_conserves _ ltr root hwf⟩
 
 /-! ## the instance the driver executes -/
 
@@ -148,6 +166,8 @@ theorem geo_paginate_conserves (lineH : Int) (dims : PageInfo → Int × Int) (l
   paginate_conserves _ ltr root fuel hd
 
 def exampleDoc : Box := .block { root := true } (.cons (.para {} [1, 2, 3]) .nil)
+
+example : exampleDoc.wf = true := by decide
 
 /-- non-vacuity: a two-page document (page content height 40 px, lines of 20 px) whose loop ends -/
 example : (paginate (geoPages 80 (fun _ => (40, 160))) true exampleDoc 3).done = true := rfl
